@@ -371,7 +371,7 @@ func (f *FailoverOf[V]) doBuild(
 		return v, writeErr
 	}
 
-	if f.config.ObserveMutability && err == nil {
+	if f.config.ObserveMutability && f.stat != nil && err == nil {
 		f.observeMutability(ctx, uVal, val)
 	}
 
